@@ -130,6 +130,7 @@ pub fn drive_flat_off(
         *b = (i as u8).wrapping_mul(31).wrapping_add(7);
     }
     let (mut in_pos, mut out_pos, mut ci, mut avail_end) = (0usize, off.min(out_size), 0usize, 0usize);
+    let mut ncalls = 0usize;
     let mut idle = 0;
     let mut spun = false;
     let mut last = None;
@@ -151,6 +152,11 @@ pub fn drive_flat_off(
         }
         in_pos += used;
         out_pos += w;
+        ncalls += 1;
+        if ncalls > 400_000 {
+            tr.ev(json!({"ev": "hang", "where": "flat driver: too many calls"}));
+            break;
+        }
         let progressed = used > 0 || w > 0;
         match st {
             TINFLStatus::Done => break,
@@ -205,6 +211,7 @@ pub fn drive_ring(
     let mut all = Vec::new();
     let (mut in_pos, mut ci, mut avail_end) = (0usize, 0usize, 0usize);
     let mut total_out = 0usize;
+    let mut ncalls = 0usize;
     let mut idle = 0;
     let mut spun = false;
     let mut last = None;
@@ -228,6 +235,12 @@ pub fn drive_ring(
         all.extend_from_slice(&out[out_pos..out_pos + w]);
         in_pos += used;
         total_out += w;
+        ncalls += 1;
+        if total_out > (64 << 20) || ncalls > 400_000 {
+            // a decoder that never stops producing output: report instead of filling the disk
+            tr.ev(json!({"ev": "hang", "where": "ring driver: runaway output"}));
+            break;
+        }
         let progressed = used > 0 || w > 0;
         match st {
             TINFLStatus::Done => break,
@@ -382,6 +395,10 @@ pub fn drive_inflate(
         };
         in_pos += res.bytes_consumed;
         all.extend_from_slice(&data);
+        if all.len() > (64 << 20) || ncalls > 400_000 {
+            tr.ev(json!({"ev": "hang", "where": "inflate driver: runaway output"}));
+            break;
+        }
         match res.status {
             Ok(miniz_oxide::MZStatus::StreamEnd) => {
                 ended = true;
